@@ -95,6 +95,20 @@ def run_case(ctx, i, rng):
 
 
 def all_methods(ctx, k, kp, A, B, PT, extra_feats):
+    # history: the operands have been *used* before their Jacobians are asked for (matrix form, inverse, compositions): nothing those calls
+    # compute or cache may leak into the Jacobians
+    with np.errstate(all="ignore"):
+        try:
+            for X in (A, B):
+                if hasattr(X, "to_matrix"):
+                    X.to_matrix()
+                X.inverse
+                X.to_compact()
+            A + B
+            A - B
+            A + PT
+        except Exception:  # noqa: BLE001 - hostile operands; only the Jacobians are judged here
+            pass
     a, b, p = M.fl(A), M.fl(B), M.fl(PT)
     n, c, npt = R.FD[k], R.CD[k], R.FD[kp]
     s = 1.0 + R.tmag(k, a) + R.tmag(k, b) + R.tmag(kp, p)
